@@ -53,8 +53,10 @@ class StepClock:
     (sys.monitoring PY_START | JUMP) executed inside windows."""
 
     TOOL = 4
+    REARM = 2_000_000
 
     def __init__(self) -> None:
+        self.budget = None
         self.mon = sys.monitoring
         self.count = 0
         self.limit = None
@@ -76,8 +78,15 @@ class StepClock:
             return self.mon.DISABLE
         self.count += 1
         if self.limit is not None and self.count > self.limit:
-            self.tripped = True
-            raise StepBudgetExceeded(self.count)
+            self._trip()
+
+    def _trip(self):
+        # Raise into the running code. Re-arm a little later, so that unwinding
+        # (finally blocks, generator finalisers, the harness's own stop()) is
+        # not interrupted again, while a loop that swallows the exception is.
+        self.tripped = True
+        self.limit = self.count + self.REARM
+        raise StepBudgetExceeded(self.budget)
 
     def _on_jump(self, code, src, dst):
         if code.co_filename.startswith("<frozen importlib"):
@@ -85,12 +94,12 @@ class StepClock:
         if dst < src:
             self.count += 1
             if self.limit is not None and self.count > self.limit:
-                self.tripped = True
-                raise StepBudgetExceeded(self.count)
+                self._trip()
 
     def start(self, limit) -> None:
         self.count = 0
         self.limit = limit
+        self.budget = limit
         self.tripped = False
         self.active = True
         ev = self.mon.events
